@@ -134,7 +134,14 @@ type fileSpec struct {
 	// ExtPkg, if set, adds a second proto file whose message Note lives in another Go package whose
 	// import path ends in this name (e.g. "context", "drpc"); methods may use ".ext.Note". Such
 	// descriptors are checked for compilation and vet only.
-	ExtPkg   string
+	ExtPkg string
+	// ExtPkg2, if set, adds a third proto file (message .ext2.Note2) in yet another Go package, whose
+	// import path ends in this name as well (protogen then numbers the qualifiers: in, in1, ...).
+	ExtPkg2 string
+	// Sibling, if set, is a second proto file of the same proto package and the same Go package with
+	// services of its own. The generator is run once per file (the other file is only imported), the way
+	// protoc is commonly driven; both outputs land in one Go package, which must compile if both runs accept.
+	Sibling  []svcSpec
 	Protolib string // "", "custom"
 	JSON     bool
 	GoPkg    string
@@ -161,6 +168,9 @@ func (f fileSpec) String() string {
 	ext := ""
 	if f.ExtPkg != "" {
 		ext = fmt.Sprintf(" ext-message-package=%q", f.ExtPkg)
+		if f.ExtPkg2 != "" {
+			ext += fmt.Sprintf(" second-ext-message-package=x/%q", f.ExtPkg2)
+		}
 	}
 	return fmt.Sprintf("package %s protolib=%q json=%v%s %s", f.Pkg, f.Protolib, f.JSON, ext, strings.Join(ss, " "))
 }
@@ -279,6 +289,34 @@ func foreignPkgSpecs() []fileSpec {
 	return out
 }
 
+// twoPkgSpecs: two foreign message packages with the same name: protogen numbers the qualifiers
+// (in, in1, ...), and a numbered qualifier can be a local name of the generated code as well.
+func twoPkgSpecs() map[string]fileSpec {
+	out := map[string]fileSpec{}
+	for _, name := range []string{"in", "c", "x", "msgs"} {
+		for _, swap := range []bool{false, true} {
+			a, b := ".ext.Note", ".ext2.Note2"
+			if swap {
+				a, b = b, a
+			}
+			out[fmt.Sprintf("%s-swap=%v", name, swap)] = fileSpec{Pkg: "a", JSON: swap, Msgs: []string{"Req"}, ExtPkg: name, ExtPkg2: name, Services: []svcSpec{{Name: "Svc", Methods: []methodSpec{
+				{Name: "U", In: a, Out: b}, {Name: "C", CS: true, In: b, Out: a}, {Name: "S", SS: true, In: b, Out: b}, {Name: "B", CS: true, SS: true, In: a, Out: a}, {Name: "L", In: "Req", Out: b}}}}}
+		}
+	}
+	return out
+}
+
+// siblingSpecs: two files of one Go package, generated in separate runs.
+func siblingSpecs() map[string]fileSpec {
+	get := []methodSpec{{Name: "Get", In: "Req", Out: "Req"}}
+	return map[string]fileSpec{
+		"no-clash":             {Pkg: "a", Msgs: []string{"Req"}, Services: []svcSpec{{Name: "Shop", Methods: get}}, Sibling: []svcSpec{{Name: "Admin", Methods: []methodSpec{{Name: "Put", CS: true, In: "SibReq", Out: "SibReq"}}}}},
+		"service-vs-method":    {Pkg: "a", Msgs: []string{"Req"}, Services: []svcSpec{{Name: "Shop", Methods: []methodSpec{{Name: "Admin", CS: true, SS: true, In: "Req", Out: "Req"}}}}, Sibling: []svcSpec{{Name: "Shop_Admin", Methods: []methodSpec{{Name: "Put", In: "SibReq", Out: "SibReq"}}}}},
+		"same-service-name":    {Pkg: "a", Msgs: []string{"Req"}, Services: []svcSpec{{Name: "shop", Methods: get}}, Sibling: []svcSpec{{Name: "Shop", Methods: []methodSpec{{Name: "Put", In: "SibReq", Out: "SibReq"}}}}},
+		"unimplemented-suffix": {Pkg: "a", JSON: true, Msgs: []string{"Req"}, Services: []svcSpec{{Name: "FooUnimplemented", Methods: get}}, Sibling: []svcSpec{{Name: "Foo", Methods: []methodSpec{{Name: "Put", In: "SibReq", Out: "SibReq"}}}}},
+	}
+}
+
 func buildRequest(f fileSpec, idx int) *pluginpb.CodeGeneratorRequest {
 	goPkg := fmt.Sprintf("c17scratch/p%d", idx)
 	fd := &descriptorpb.FileDescriptorProto{
@@ -329,6 +367,32 @@ func buildRequest(f fileSpec, idx int) *pluginpb.CodeGeneratorRequest {
 			Options:     &descriptorpb.FileOptions{GoPackage: proto.String(goPkg + "/" + f.ExtPkg + ";" + f.ExtPkg)},
 			MessageType: []*descriptorpb.DescriptorProto{{Name: proto.String("Note"), Field: []*descriptorpb.FieldDescriptorProto{tagField()}}},
 		}, fd}
+	}
+	if f.ExtPkg != "" && f.ExtPkg2 != "" {
+		fd.Dependency = append(fd.Dependency, "ext2.proto")
+		ext2 := &descriptorpb.FileDescriptorProto{
+			Name: proto.String("ext2.proto"), Package: proto.String("ext2"), Syntax: proto.String("proto3"),
+			Options:     &descriptorpb.FileOptions{GoPackage: proto.String(goPkg + "/x/" + f.ExtPkg2 + ";" + f.ExtPkg2)},
+			MessageType: []*descriptorpb.DescriptorProto{{Name: proto.String("Note2"), Field: []*descriptorpb.FieldDescriptorProto{tagField()}}},
+		}
+		files = append(files[:len(files)-1], ext2, fd)
+	}
+	if f.Sibling != nil {
+		sib := &descriptorpb.FileDescriptorProto{
+			Name: proto.String("sib.proto"), Package: proto.String(f.Pkg), Syntax: proto.String("proto3"),
+			Options:     &descriptorpb.FileOptions{GoPackage: proto.String(goPkg + ";gen")},
+			MessageType: []*descriptorpb.DescriptorProto{{Name: proto.String("SibReq"), Field: []*descriptorpb.FieldDescriptorProto{tagField()}}},
+		}
+		for _, sv := range f.Sibling {
+			sd := &descriptorpb.ServiceDescriptorProto{Name: proto.String(sv.Name)}
+			for _, m := range sv.Methods {
+				sd.Method = append(sd.Method, &descriptorpb.MethodDescriptorProto{Name: proto.String(m.Name), InputType: proto.String(full(m.In)), OutputType: proto.String(full(m.Out)),
+					ClientStreaming: proto.Bool(m.CS), ServerStreaming: proto.Bool(m.SS)})
+			}
+			sib.Service = append(sib.Service, sd)
+		}
+		fd.Dependency = append(fd.Dependency, "sib.proto")
+		files = append(files[:len(files)-1], sib, fd)
 	}
 	param := ""
 	var ps []string
@@ -557,9 +621,14 @@ func checkSpec(id string, f fileSpec, idx int, seed uint64) runner.Result {
 	defer os.RemoveAll(dir)
 	desc := f.String()
 	goReq := req
-	if f.ExtPkg != "" {
+	if f.ExtPkg != "" || f.Sibling != nil {
 		goReq = proto.Clone(req).(*pluginpb.CodeGeneratorRequest)
-		goReq.FileToGenerate = []string{"ext.proto", "svc.proto"}
+		goReq.FileToGenerate = nil
+		for _, pf := range req.ProtoFile {
+			if !strings.HasPrefix(pf.GetName(), "google/") {
+				goReq.FileToGenerate = append(goReq.FileToGenerate, pf.GetName())
+			}
+		}
 	}
 	goResp, err := runPlugin(pluginGo, goReq, "")
 	if err != nil || goResp.Error != nil {
@@ -574,6 +643,23 @@ func checkSpec(id string, f fileSpec, idx int, seed uint64) runner.Result {
 		res.Sample = map[string]interface{}{"descriptor": desc, "generator_error": resp.GetError()}
 		return res
 	}
+	if f.Sibling != nil {
+		// the second run: the sibling file is the one to generate, svc.proto is not part of that run's
+		// input at all (it imports the sibling, not the other way round)
+		sreq := proto.Clone(req).(*pluginpb.CodeGeneratorRequest)
+		sreq.FileToGenerate = []string{"sib.proto"}
+		sreq.ProtoFile = sreq.ProtoFile[:len(sreq.ProtoFile)-1]
+		sresp, err := runPlugin(pluginDrpc, sreq, req.GetParameter())
+		if err != nil {
+			return runner.Violation(id, "c17:plugin-crashed", desc+"\nthe generator crashed on the sibling file: "+err.Error())
+		}
+		if sresp.Error != nil {
+			res := runner.Hold(id, "rejected(sibling):"+desc, false)
+			res.Sample = map[string]interface{}{"descriptor": desc, "generator_error": sresp.GetError()}
+			return res
+		}
+		resp.File = append(resp.File, sresp.File...)
+	}
 	if keep := os.Getenv("C17_KEEP"); keep != "" { // development aid: keep the generator's output for comparison
 		for _, r := range resp.File {
 			os.MkdirAll(keep, 0o755)
@@ -585,6 +671,10 @@ func checkSpec(id string, f fileSpec, idx int, seed uint64) runner.Result {
 		if f.ExtPkg != "" && strings.HasPrefix(filepath.Base(r.GetName()), "ext.") {
 			os.MkdirAll(filepath.Join(dir, f.ExtPkg), 0o755)
 			target = filepath.Join(dir, f.ExtPkg, filepath.Base(r.GetName()))
+		}
+		if f.ExtPkg2 != "" && strings.HasPrefix(filepath.Base(r.GetName()), "ext2.") {
+			os.MkdirAll(filepath.Join(dir, "x", f.ExtPkg2), 0o755)
+			target = filepath.Join(dir, "x", f.ExtPkg2, filepath.Base(r.GetName()))
 		}
 		os.WriteFile(target, []byte(r.GetContent()), 0o644)
 	}
@@ -612,7 +702,7 @@ func checkSpec(id string, f fileSpec, idx int, seed uint64) runner.Result {
 	if len(f.Services) == 0 || nmeth == 0 && false {
 		return runner.Hold(id, desc, false)
 	}
-	if f.ExtPkg != "" {
+	if f.ExtPkg != "" || f.Sibling != nil {
 		// messages from a foreign package: the generated package compiles and vets; the derived
 		// driver does not follow import aliases, so the round trip is left to the other descriptors
 		if out, err := run(mod, "go", "vet", pkg); err != nil {
@@ -697,6 +787,16 @@ func gen(tier string, seed uint64) []runner.Scenario {
 			idx := 4000 + 2*k + b2i(json)
 			out = append(out, runner.Scenario{ID: id, Run: func() runner.Result { return checkSpec(id, f, idx, seed) }})
 		}
+	}
+	for name, f := range twoPkgSpecs() {
+		name, f, idx := name, f, 5000+len(out)
+		id := "fixed/two-foreign-packages-" + name
+		out = append(out, runner.Scenario{ID: id, Run: func() runner.Result { return checkSpec(id, f, idx, seed) }})
+	}
+	for name, f := range siblingSpecs() {
+		name, f, idx := name, f, 5000+len(out)
+		id := "fixed/sibling-file-" + name
+		out = append(out, runner.Scenario{ID: id, Run: func() runner.Result { return checkSpec(id, f, idx, seed) }})
 	}
 	for k, f := range foreignPkgSpecs() {
 		k, f := k, f
